@@ -453,6 +453,33 @@ def oracle_sqlite():
         shutil.rmtree(d, ignore_errors=True)
 
 
+def oracle_subsets():
+    """real save_catalog on every combination of source types present: exactly the files of the types present, with their rows"""
+    import itertools
+    cat = loader.real('catalogs')
+    models = loader.real('models')
+    d = tempfile.mkdtemp(prefix='c18t_', dir='/var/tmp')
+    try:
+        comps, isl, simp = make_catalog(models, False, 2)
+        for k, present in enumerate(itertools.product((0, 1), repeat=3)):
+            if not any(present):
+                continue
+            items = (comps if present[0] else []) + ([isl] if present[1] else []) + ([simp] if present[2] else [])
+            fn = os.path.join(d, 'set%d.csv' % k)
+            cat.save_catalog(fn, items)
+            for suffix, pz, n in (('_comp', present[0], len(comps)), ('_isle', present[1], 1), ('_simp', present[2], 1)):
+                p = os.path.join(d, 'set%d%s.csv' % (k, suffix))
+                if bool(pz) != os.path.exists(p):
+                    return True, 'type-file-%s' % ('missing' if pz else 'unexpected'), 'catalogue with (components, islands, simples) present = %s: file %s %s' % (present, os.path.basename(p), 'not written' if pz else 'written')
+                if pz and len(cat.load_table(p)) != n:
+                    return True, 'type-file-rows', '%s holds %d rows for %d sources' % (os.path.basename(p), len(cat.load_table(p)), n)
+        return False, None, None
+    except Exception as e:
+        return True, 'raises-%s' % type(e).__name__, repr(e)[:300]
+    finally:
+        shutil.rmtree(d, ignore_errors=True)
+
+
 def run(rep):
     cat, models = sym_mods()
     thorough = rep.tier == 'thorough'
@@ -494,6 +521,10 @@ def run(rep):
     rep.end_kernel()
     rep.kernel('K-replay-oracle', functions=[F + ':save_catalog', F + ':load_table'], bounds='a 6-source mixed catalogue through real csv / fits / vot files, with and without a first row whose declination is undefined',
                assumes=['concrete executions: value fidelity is library behaviour, checked here only on one catalogue'])
+    bad, cls, detail = oracle_subsets()
+    rep.validated_runs(7)
+    if bad:
+        rep.finding('C18/K-classify/%s' % cls, dict(fmt='subsets'), detail)
     for fmt in ('fits', 'csv', 'vot'):
         for fnd in (False, True):
             bad, cls, detail = oracle(fmt, fnd)
@@ -513,7 +544,11 @@ def handle(rep, res, kname):
                 bad, cls, detail = oracle('fits', True)
                 if not bad:
                     bad, cls, detail = oracle('csv', False)
-                if rep.finding('C18/%s/%s' % (kname, cls or ob['name'].split(':')[-1]), dict(fmt='fits', first_nan_dec=True), detail or ob['name'], reproduced=bad) != 'not-reproduced':
+                wit_ = dict(fmt='fits', first_nan_dec=True)
+                if not bad:
+                    bad, cls, detail = oracle_subsets()
+                    wit_ = dict(fmt='subsets')
+                if rep.finding('C18/%s/%s' % (kname, cls or ob['name'].split(':')[-1]), wit_, detail or ob['name'], reproduced=bad) != 'not-reproduced':
                     done.add(ob['name'].split(':')[-1])
     if res:
         rep.sample(dict(kernel=kname, paths=len(res), obligations=[(o['name'].split(':')[-1], o['result']) for o in res[0]['obligations']][:8]))
@@ -521,6 +556,9 @@ def handle(rep, res, kname):
 
 def replay(w):
     wit = w['witness']
+    if wit.get('fmt') == 'subsets':
+        bad, cls, detail = oracle_subsets()
+        return bad, '%s: %s' % (cls, detail)
     if wit.get('fmt') == 'db':
         bad, cls, detail = oracle_sqlite()
         return bad, '%s: %s' % (cls, detail)
